@@ -43,10 +43,12 @@ from ..model import last_attr
 from ..paths import is_const
 from ..pyint import DictRec
 from ..pyint import Interp
+from ..pyint import NullLog
 from ..pyint import Raised
 from ..pyint import Rec
 from ..selftest import Mutant
 from ._helpers_A import ASpec
+from ._helpers_A import SeqPatterns
 from ._helpers_A import run_block
 from ._helpers_E import expect
 from ._helpers_E import params
@@ -100,14 +102,13 @@ def _destination(scheme, value):
     return host.lower(), int(m["port"]) if m["port"] else RFC.get(_s(scheme))
 
 
-class _Interp(Interp):
-    def comp(self, e, env, mod, depth):
-        out = super().comp(e, env, mod, depth)
-        return iter(out) if isinstance(e, ast.GeneratorExp) else out  # a generator expression is an iterator (next(), single pass)
+class _Interp(SeqPatterns, Interp):
+    pass
 
 
 def _interp(ctx):
-    return _Interp(ctx.model, trusted_modules={"re": _re, "urllib": _urllib, "ipaddress": _ipaddress})
+    # logging added to the accessors is transparent: the logging module and every logger are the interpreter's null logger
+    return _Interp(ctx.model, trusted_modules={"re": _re, "urllib": _urllib, "ipaddress": _ipaddress, "logging": NullLog()})
 
 
 # ---------------------------------------------------------------------------------------------------
